@@ -693,6 +693,26 @@ class SInt:
             raise ZeroDivisionError("integer division or modulo by zero")
         return SInt(z3.simplify(self._floordivmod(bv(o), self.t)[1]))
 
+    def __divmod__(self, o):
+        return self // o, self % o
+
+    def __rdivmod__(self, o):
+        return o // self, o % self
+
+    def __pow__(self, o, mod=None):
+        if mod is not None or not isinstance(o, int) or isinstance(o, bool) or o < 0 or o > 8:
+            raise Unmodelled("SInt ** symbolic / large exponent")
+        r = 1
+        for _ in range(o):
+            r = r * self
+        return r
+
+    def __rpow__(self, o):
+        # constant ** symbolic: only powers of two with a small exponent (as a shift)
+        if isinstance(o, int) and o == 2:
+            return 1 << self
+        raise Unmodelled("constant ** SInt")
+
     def __truediv__(self, o):
         return SRatio(self, o)
 
